@@ -476,7 +476,7 @@ def oracle_transfers(scn, res):
                     v.append((ci, "upload/data-connection-not-ended-cleanly",
                               "the peer saw the upload's data connection end by %s" % (
                                   "a TCP close without the TLS close-notify" if rec["eof"] == "truncated" else "a reset")))
-                if cb is not None and not e.get("cancelled"):
+                if cb is not None and (not e.get("cancelled") or e.get("drained_after_abor")):
                     notes = [int(t[1:]) for t in io if re.fullmatch(r"n\d+", t)]
                     if sum(notes) != len(rec["bytes"]):
                         v.append((ci, "callback/notify-sum-differs-from-bytes-moved", "%d vs %d" % (sum(notes), len(rec["bytes"]))))
@@ -1210,6 +1210,25 @@ def fam_cancel(rng, n, dist):
         else:
             b.failing(("S", b"NOOP", None), cmds=[])
             b.disconnect(False)
+        out.append(b.scenario())
+    # a server that is slow to read and, having answered ABOR, still takes everything the client had written before it
+    # closed: what the callback was told has crossed the data connection - all of it (a close that throws queued data away
+    # makes the callback a liar)
+    for j in range(2):
+        mode, rfc = ALL_METHODS[(j * 2 + rng.randrange(2)) % 4]
+        b = S.Builder(rng, mode, rfc, type="I")
+        b.connect(login=(b"u", b"p"))
+        blk = [bytes([65 + k % 26]) * 8192 for k in range(40)]
+        ci = b.transfer("U", b"f", chunks=blk, cb=[False] * 21 + [True] * 8, abor=dict(first=426, second=226))
+        if ci in b.xfer_map:
+            si, ri = b.xfer_map[ci]
+            b.sessions[si]["reactions"][ri]["data"].update(read_delay_s=0.6, rcvbuf=16384)
+            b.sessions[si]["reactions"][ri + 1]["abort_data"] = False
+            b.sessions[si]["reactions"][ri + 1]["during_transfer"] = True
+            b.exp[ci]["drained_after_abor"] = True
+        dist.add("cancel:upload-drained-by-the-server-after-ABOR")
+        b.simple(b"NOOP", None, 200)
+        b.disconnect(True)
         out.append(b.scenario())
     return out
 
